@@ -68,3 +68,28 @@ Proof.
     + rewrite map_app. cbn [map fst]. rewrite <- app_assoc. exact H.
   - apply NoDup_remove_2 in H. intros X. apply H. apply in_or_app. now left.
 Qed.
+(* ---- additions for the command-line wrappers ---- *)
+Lemma res_bind_ret {A : Type} (e : result A) : (dor x <- e; Ok x) = e.
+Proof. destruct e; reflexivity. Qed.
+
+(* a comprehension whose element is one call that may raise *)
+Lemma res_map_all_ret {A B : Type} (f : A -> result B) (l : list A) :
+  res_map_all (fun x => dor r <- f x; Ok r) l = res_map_all f l.
+Proof.
+  induction l as [|a l IH]; cbn [res_map_all]; [reflexivity|].
+  rewrite res_bind_ret, IH. reflexivity.
+Qed.
+
+(* one step of a linking proof: case analysis on what both sides evaluate next - the optional value a branch
+   tests, or the library call *)
+Ltac cli_case e :=
+  lazymatch e with
+  | res_bind ?e' _ => cli_case e'
+  | Ok _ => cbn [res_bind]
+  | Err _ => cbn [res_bind]
+  | (if is_some ?o then _ else _) => destruct o; cbn [is_some is_none unwrap res_bind]
+  | (if is_none ?o then _ else _) => destruct o; cbn [is_some is_none unwrap res_bind]
+  | (match ?o with Some _ => _ | None => _ end) => destruct o; cbn [is_some is_none unwrap res_bind]
+  | _ => destruct e; cbn [res_bind]; try reflexivity
+  end.
+Ltac cli_step := match goal with |- context [res_bind ?e _] => cli_case e end.
